@@ -720,9 +720,10 @@ func (a *Authenticator) handleSessionResumption(ctx context.Context, sessionID s
 
 	slog.Info(fmt.Sprintf("🔐 SERVER: Found session %s, resuming...", redactSessionID(sessionID)), "destination", "cedar")
 
-	// Renew the session lease
+	// Renew the session lease. The entry is the object the cache already holds, so
+	// renewing it in place is enough; storing it again would put a session back that
+	// another goroutine invalidated since the lookup above.
 	entry.RenewLease()
-	cache.Store(entry)
 
 	// Check if client wants a response
 	wantResponse := false
@@ -1579,9 +1580,10 @@ func (a *Authenticator) resumeSession(ctx context.Context, entry *SessionEntry, 
 		}
 	}
 
-	// Renew the session lease
+	// Renew the session lease. The entry is the object the cache already holds (it was
+	// looked up there before the request went out), so renewing it in place is enough;
+	// storing it again would undo an Invalidate that ran while the reply was in flight.
 	entry.RenewLease()
-	cache.Store(entry)
 
 	// Set up encryption with cached key (only for session resumption)
 	if len(negotiation.GetSharedSecret()) > 0 {
